@@ -546,3 +546,31 @@ pub fn debug_text(v: &VariantSpec, fields: &[String]) -> String {
         }
     }
 }
+
+impl FieldTy {
+    /// a const-evaluable expression of the default value (used in `const` items)
+    pub fn const_default_expr(&self) -> String {
+        match self {
+            FieldTy::U8 | FieldTy::I32 | FieldTy::T | FieldTy::U => "0".into(),
+            FieldTy::Bool => "false".into(),
+            FieldTy::Str => "String::new()".into(),
+            FieldTy::SStr | FieldTy::LStr => "\"\"".into(),
+            FieldTy::OptU8 => "None".into(),
+            FieldTy::Arr2 => "[0, 0]".into(),
+            FieldTy::Nd => "vf_core::Nd(0)".into(),
+            FieldTy::Raw(t, _) if t.contains("PhantomData") => "::core::marker::PhantomData".into(),
+            FieldTy::Raw(_, _) => "Default::default()".into(),
+        }
+    }
+}
+
+/// expression building variant `vi` with const-evaluable default payloads
+pub fn render_default_value(spec: &EnumSpec, vi: usize) -> String {
+    let v = &spec.variants[vi];
+    let fields: Vec<String> = match &v.kind {
+        Kind::Unit => vec![],
+        Kind::Tuple(fs) => fs.iter().map(|f| f.const_default_expr()).collect(),
+        Kind::Named(fs) => fs.iter().map(|f| f.ty.const_default_expr()).collect(),
+    };
+    render_ctor(spec, vi, &fields)
+}
